@@ -239,7 +239,7 @@ def call_blocks(body, regex):
 
 
 def sh_main(ctx, out, rule="SH.main"):
-    main = ctx.facts.bodies.get("bwbin::main")
+    main = ctx.main_view()
     if main is None:
         out.inst(rule, 0, 1)
         return
